@@ -17,7 +17,7 @@ def bounds(tier):
             'symbolic_flags_per_cell': 2, 'id_length': 1}
 
 
-def mk(variants, flagsets, sym_flags=(), edstart='present', pre_op=None, started=None, T=60, tag=''):
+def mk(variants, flagsets, sym_flags=(), edstart='present', pre_op=None, started=None, T=60, tag='', unique=True):
     N = len(variants)
     flags = {}
     for i, fs in enumerate(flagsets):
@@ -30,7 +30,9 @@ def mk(variants, flagsets, sym_flags=(), edstart='present', pre_op=None, started
     if pre_op:
         sym.append(('n0', 'str'))
         strs.append('n0')
-    pre = str_pre(strs + ['i0', 'c0', 'c1', 'c2']) + distinct(strs)
+    # story IDs are not required to be unique (roStoryAppend does not de-duplicate): in the 'dup-ids' cells the
+    # solver may make them equal, and the listing must still follow the document
+    pre = str_pre(strs + ['i0', 'c0', 'c1', 'c2']) + (distinct(strs) if unique else [])
     for fl in sym_flags:
         sym.append((fl, 'bool'))
         flags.pop(fl, None)
@@ -39,6 +41,8 @@ def mk(variants, flagsets, sym_flags=(), edstart='present', pre_op=None, started
         cid += '/sym-' + '+'.join(sym_flags)
     if pre_op:
         cid += '/after-' + pre_op
+    if not unique:
+        cid += '/dup-ids'
     if tag:
         cid += '/' + tag
     return Cell(pid=PID, cid=cid, harness='h_access:accessor_cell', params=P, sym=sym, pre=pre,
@@ -68,6 +72,9 @@ def cells(tier):
         out.append(mk(list(tr), [[], ALL, ['in', 'io']], edstart='absent', T=T))
     out.append(mk(['SD', 'none'], [ALL, ALL], started=[None, 1], T=T))
     out.append(mk(['none', 'SD'], [[], []], started=[1, None], edstart='absent', T=T))
+    out.append(mk(['SD', 'TT+MT'], [['sl'], ['sl', 'it']], unique=False, T=T))
+    out.append(mk(['SD', 'none', 'MT'], [['sl'], [], ALL], unique=False, T=T))
+    out.append(mk(['SD', 'SD'], [ALL, []], pre_op='append-timed', unique=False, T=T))
     # states reached by merges that insert / append / replace / send stories with or without timing
     for op in ('append-timed', 'append-untimed', 'insert-timed', 'insert-untimed', 'replace-timed',
                'replace-untimed', 'send-timed', 'send-untimed', 'eainsert-untimed', 'eainsert-timed'):
